@@ -125,9 +125,9 @@ def exc_classes(tier):
     return d
 
 
-def build():
+def build(env=None):
     import cincoconfig as cc
-    s = cc.Schema(dynamic=True)
+    s = cc.Schema(dynamic=True, **({"env": env} if env else {}))
     s.s = cc.StringField(default="x")
     s.i = cc.IntField(default=1)
     s.f = cc.FloatField()
@@ -179,7 +179,88 @@ def jobs(tier):
         for fmt in FORMATS:
             out.append({"name": "inject/%s/%s" % (st, fmt), "kind": "inject", "state": st, "fmt": fmt, "tier": tier})
     out.append({"name": "natural", "kind": "natural", "tier": tier})
+    for variant in VARIANTS:
+        out.append({"name": "loadback/%s" % variant, "kind": "loadback", "variant": variant, "tier": tier})
     return out
+
+
+# a successful save loads back: key files of their own one and two levels down, and a process environment in which
+# every variable the schema is bound to exists but is empty
+VARIANTS = ["key-on-sub", "key-on-deep", "key-on-sub-and-deep", "env-empty", "env-empty+key-on-deep"]
+
+
+def _loadback(job, ctx):
+    import cincoconfig as cc
+    variant = job["variant"]
+    only = job.get("only")
+    tmp = ctx.tmp
+    keys = {}
+    for name in ("root", "sub", "deep"):
+        keys[name] = os.path.join(tmp, "c19-%s.key" % name)
+        with open(keys[name], "wb") as fh:
+            fh.write(bytes((i * 7 + len(name)) % 256 for i in range(32)))
+    schema = build(env="C19ENV" if "env-empty" in variant else None)
+    if "env-empty" in variant:
+        for name in W.env_names(schema):
+            os.environ[name] = ""
+
+    def assign(cfg, tree):
+        # by attribute, level by level: nothing here goes through a tree load
+        for k, v in tree.items():
+            if isinstance(v, dict) and k in ("sub", "deep", "t"):
+                assign(getattr(cfg, k), v)
+            else:
+                setattr(cfg, k, v)
+
+    def setup():
+        cfg = cc.Config(schema, key_filename=keys["root"])
+        if "key-on-sub" in variant:
+            cfg.sub._key_filename = keys["sub"]
+        if "key-on-deep" in variant or "and-deep" in variant:
+            cfg.sub.deep._key_filename = keys["deep"]
+        return cfg
+    try:
+        for state in STATES:
+            for fmt in FORMATS:
+                for into in ("fresh", "same", "fresh-twice"):
+                    ident = [state, fmt, into]
+                    if only is not None and only != ident:
+                        continue
+                    cfg = setup()
+                    tree = _copy(STATES[state])
+                    if "b" in tree:
+                        import base64
+                        tree["b"] = base64.b64decode(tree["b"])
+                    assign(cfg, tree)
+                    dest = os.path.join(tmp, "lb.cfg")
+                    ctx.transitions += 1
+                    case = _case(job, ident)
+                    fp = "C19|loadback|%s|%s|%s|" % (variant, fmt, into)
+                    try:
+                        cfg.save(dest, fmt)
+                    except Exception as exc:  # noqa
+                        ctx.violation(fp + "save-raises", "state %s: a plain save raised %r" % (state, exc), case)
+                        continue
+                    want = _norm(cc.asdict(cfg))
+                    target = cfg if into == "same" else setup()
+                    try:
+                        target.load(dest, fmt)
+                        if into == "fresh-twice":
+                            target.load(dest, fmt)
+                        got = _norm(cc.asdict(target))
+                    except Exception as exc:  # noqa
+                        ctx.case(("loadback", variant, state, fmt, into), "loadback:raises", True)
+                        ctx.violation(fp + "load-back-raises", "state %s: loading the saved file into %s raised %r" % (state, into, exc), case)
+                        continue
+                    ctx.case(("loadback", variant, state, fmt, into), "loadback:ok", True)
+                    if V.plain(got) != V.plain(want):
+                        ctx.violation(fp + "load-back-differs", "state %s: the saved file loads back into %s as %s, saved from %s" % (state, into, V.show(got, 160), V.show(want, 160)), case)
+    finally:
+        for name in list(os.environ):
+            if name.startswith("C19ENV"):
+                del os.environ[name]
+    ctx.traces += 1
+    ctx.sample({"loadback": variant, "states": list(STATES), "formats": FORMATS})
 
 
 def _case(job, only):
@@ -227,7 +308,9 @@ def run_job(job, ctx):
     single = job.get("single")
     if single:
         job = dict(single["jobparams_full"]); job["only"] = single["only"]
-    if job["kind"] == "inject":
+    if job["kind"] == "loadback":
+        _loadback(job, ctx)
+    elif job["kind"] == "inject":
         _inject(job, ctx)
     elif job.get("only") and job["only"][0] == "history":
         _histories(job, ctx, build())
